@@ -3,7 +3,7 @@
 # like seedtest.sh, but the patch is applied in a scratch worktree (/tmp/seedwt_<id>) and the check runs against it through
 # VERIF_REPO, so /repo itself is never modified (safe while other runs read /repo).
 ID=$1; PATCH=$2; DEMO=$3; shift 3
-WT=/tmp/seedwt_$ID
+WT=/tmp/seedwt_${ID}_$$
 git -C /repo worktree remove --force $WT >/dev/null 2>&1
 git -C /repo worktree add -q --detach $WT HEAD || exit 2
 cd $WT || exit 2
